@@ -8,7 +8,7 @@ impl Parseable for FormatSpecial {
             preceded(
                 "\\",
                 alt((
-                    take_while(3.., |c| "01234567".contains(c))
+                    take_while(3..=3, |c| "01234567".contains(c))
                         .map(|oct| u16::from_str_radix(oct, 8).unwrap())
                         .map(FormatSpecial::Ascii),
                     literal("0").value(FormatSpecial::Null),
@@ -16,6 +16,7 @@ impl Parseable for FormatSpecial {
                     literal("a").value(FormatSpecial::Alarm),
                     literal("b").value(FormatSpecial::Backspace),
                     literal("c").value(FormatSpecial::Clear),
+                    literal("f").value(FormatSpecial::Form),
                     literal("n").value(FormatSpecial::Newline),
                     literal("r").value(FormatSpecial::CarriageReturn),
                     literal("t").value(FormatSpecial::TabHorizontal),
